@@ -70,8 +70,72 @@ def dynamic_method(prog: Program, st, fi: FuncInfo, args):
     return over if over is not None and over.node is not None else fi
 
 
+def value_snapshot(st, v, depth=0):
+    """Comparable picture of a result: what it denotes, down to the objects it holds."""
+    if depth > 6:
+        return "..."
+    if isinstance(v, Num):
+        return ("num", repr(st.norm(v.rf)))
+    if isinstance(v, QtyV):
+        tid = st.tfind(v.tid) if v.tid is not None else None
+        if v.amount is not None and v.unit is not None and tid is not None and st.U(v.unit.uid).mu is not None:
+            # by value: the type and the exact amount in reference units (1 km and 1000 m are one result)
+            # (for quantized types: the exact value that was rounded, how often, and under which ambient state)
+            return ("qty", tid, "value", repr(st.norm(st.expand_rnd(v.amount.rf) * st.U(v.unit.uid).mu)),
+                    st.rnd_depth(v.amount.rf), st.rnd_epochs(v.amount.rf))
+        return ("qty", tid, st.ufind(v.unit.uid) if v.unit is not None else None,
+                repr(st.norm(v.amount.rf)) if v.amount is not None else None)
+    if isinstance(v, UnitV):
+        return ("unit", st.ufind(v.uid))
+    if isinstance(v, ClsV):
+        return ("cls", st.tfind(v.tid))
+    if isinstance(v, RateV):
+        # by value: the quotation (amount per multiple, as rounded) between the two currencies
+        return ("rate", st.ufind(v.unit.uid), st.ufind(v.term.uid), repr(st.norm(st.expand_rnd(v.ta.rf) / v.um.rf)),
+                st.rnd_depth(v.ta.rf), st.rnd_epochs(v.ta.rf))
+    if isinstance(v, TupleV) and len(v.items) == 2 and isinstance(v.items[0], Num) and isinstance(v.items[1], UnitV):
+        # (factor, unit): the scaled unit it denotes
+        tid = st.tfind(st.unit_type(v.items[1].uid))
+        if st.U(v.items[1].uid).mu is not None:
+            return ("scaled unit", tid, repr(st.norm(v.items[0].rf * st.U(v.items[1].uid).mu)))
+    if isinstance(v, (TupleV, ListV)):
+        items = getattr(v, "items", None)
+        return (type(v).__name__, tuple(value_snapshot(st, x, depth + 1) for x in items) if items is not None else "?")
+    if isinstance(v, StrV):
+        return ("str", v.const if v.const is not None else v.tag)
+    if isinstance(v, BoolV):
+        return ("bool", v.val)
+    if isinstance(v, NoneV):
+        return ("none",)
+    if isinstance(v, EnumV):
+        return ("enum", v.cls, v.member, getattr(v, "origin", None))
+    if isinstance(v, TermV):
+        return ("term", repr(st.norm(v.mag)), tuple(sorted((st.tfind(k), e) for k, e in v.dims.items() if e != (0, 0))))
+    if isinstance(v, DateV):
+        return ("date",) + tuple(repr(st.norm(x.rf)) for x in (v.y, v.m, v.d))
+    if type(v).__name__ == "ObjV":
+        return ("obj", v.ci.name if v.ci is not None else None,
+                tuple(sorted((k, value_snapshot(st, x, depth + 1)) for k, x in v.fields.items())))
+    if type(v).__name__ == "DictV":
+        return ("dict", tuple((value_snapshot(st, k, depth + 1), value_snapshot(st, x, depth + 1)) for k, x in v.items))
+    if type(v).__name__ == "CmpV":
+        return ("cmp", v.op, value_snapshot(st, v.l, depth + 1), value_snapshot(st, v.r, depth + 1))
+    return ("opaque", type(v).__name__, getattr(v, "tag", None))
+
+
+def _outcome_snapshot(st, kind, value, exc):
+    if kind == "raise":
+        return ("raise", exc.name, getattr(exc, "tag", None))
+    return ("return", value_snapshot(st, value))
+
+
 def run_case(prog: Program, fi: FuncInfo, setup: Callable, *, inline_ctor=False,
-             inline_rate_ctor=False, max_depth=10, cache_hits=False) -> List[Outcome]:
+             inline_rate_ctor=False, max_depth=10, cache_hits=False, replay=None, path_cap=None) -> List[Outcome]:
+    """replay: None - one call; "same" - the call is made twice in the same state (what the first call memoised is
+    there for the second, which is the one returned and judged); "epoch" - between the two calls the ambient state
+    changes (default rounding mode, directories may have grown), and the judged call is followed by a third one for
+    which everything memoised in process-global maps and by decorators is forgotten (recomputation in the current
+    state).  The pictures of the calls are left on the outcome (`first`, `first_after`, `second`, `cold`)."""
     def run(oracle):
         st = State(oracle)
         models = FullModels(inline_ctor=inline_ctor, inline_rate_ctor=inline_rate_ctor,
@@ -86,16 +150,45 @@ def run_case(prog: Program, fi: FuncInfo, setup: Callable, *, inline_ctor=False,
             out.args, out.kwargs, out.ctx = [], {}, ctx
             return out
         target = dynamic_method(prog, st, fi, args)
-        try:
-            v = interp.call_function(target, args, kwargs)
-            out = Outcome("return", value=v, state=st)
-        except AbsRaise as ar:
-            out = Outcome("raise", exc=ar.exc, state=st)
+
+        if replay:
+            st.oracle.sticky = {}
+
+        def call():
+            st.oracle.begin_call()
+            try:
+                return "return", interp.call_function(target, args, kwargs), None
+            except AbsRaise as ar:
+                return "raise", None, ar.exc
+        first = first_value = None
+        if replay:
+            k1, v1, e1 = call()
+            first, first_value = _outcome_snapshot(st, k1, v1, e1), v1
+            st.prior_effects.extend(st.effects)
+            st.effects[:] = []
+            st.oracle.trace.append("-- the call is repeated" + (" after the ambient state changed" if replay == "epoch" else ""))
+            if replay == "epoch":
+                st.bump_epoch()
+        k, v, e = call()
+        out = Outcome(k, value=v, exc=e, state=st)
+        if replay:
+            out.replay = replay
+            out.first = first
+            out.first_after = _outcome_snapshot(st, "return", first_value, None) if first[0] == "return" else first
+            out.second = _outcome_snapshot(st, k, v, e)
+            if replay == "epoch":
+                st.memo_hidden = True
+                st.oracle.trace.append("-- recomputation with nothing memoised")
+                saved = list(st.effects)
+                k3, v3, e3 = call()
+                out.cold = _outcome_snapshot(st, k3, v3, e3)
+                st.effects[:] = saved
+                st.memo_hidden = False
         out.args = args
         out.kwargs = kwargs
         out.ctx = ctx
         return out
-    return explore(run)
+    return explore(run, cap=path_cap)
 
 
 def run_body(prog: Program, body: Callable, *, inline_ctor=False, inline_rate_ctor=False,
